@@ -60,8 +60,8 @@ impl C12 {
 }
 
 const TIMES: &[&str] = &["0", "0.00000000000000001", "10", "10", "20", "-5", "10.5", "1e3", "2147483648", "abc", " 7 ", "10.000000000000001", "20", "0", "0.00000000000000015", "0.0000000000000003", "-0.0000000000000001", "0.00000000000000045", "0.5", "0.5000000000000001", "\u{3000}10", "20\u{a0}", "\u{b}10", "\u{2003}0"];
-const BLS: &[&str] = &["500", "-100", "-50", "0", "-0.5", "1e9", "3000000000", "NaN", "-1000000", "5", "70000", "-20", "x", "inf", "-inf", "333.33", "-100", "500", "6", "60000", "-1000", "-10", "-100.00000000000001", "-200", "-200.00000000000003", "-400", "-400.00000000000006", "-1000.0000000000001", "-10000", "-100000", "nan", "NAN", "+NaN", "-NaN", "-nan", "infinity", "+inf", "-0", "-0.0", "-0e3", "-1e-400", "1e-400", "\u{3000}500", "-100\u{a0}", "2147483647", "-2147483647", "2147483647.0", "2.147483647e9", "2147483646", "2147483648", "-2147483648"];
-const SIGS: &[&str] = &["4", "3", "0", "05", "-1", "7", "", "x", "4", "2147483647", "2147483648", "4294967295", "+3", " 5", "-0"];
+const BLS: &[&str] = &["500", "-100", "-50", "0", "-0.5", "1e9", "3000000000", "NaN", "-1000000", "5", "70000", "-20", "x", "inf", "-inf", "333.33", "-100", "500", "6", "60000", "-1000", "-10", "-100.00000000000001", "-200", "-200.00000000000003", "-400", "-400.00000000000006", "-1000.0000000000001", "-10000", "-100000", "nan", "NAN", "+NaN", "-NaN", "-nan", "infinity", "+inf", "-0", "-0.0", "-0e3", "-1e-400", "1e-400", "\u{3000}500", "-100\u{a0}", "2147483647", "-2147483647", "2147483647.0", "2.147483647e9", "2147483646", "2147483648", "-2147483648", "-66.66666666666667", "-66.66666666666666", "-99.99999999999999", "-80", "-79.99999999999999", "-57.142857142857146", "-57.14285714285714"];
+const SIGS: &[&str] = &["0.5", "03", " 0", "0x", "4", "3", "0", "05", "-1", "7", "", "x", "4", "2147483647", "2147483648", "4294967295", "+3", " 5", "-0"];
 const BANKS: &[&str] = &["0", "1", "2", "3", "4", "-1", "x", "\u{85}2", "3\u{2003}"];
 const CUSTOMS: &[&str] = &["0", "1", "2", "x", "-1", "-2", "65538", "65536", "0", "-1"];
 const VOLS: &[&str] = &["100", "0", "-5", "150", "50", "x", "100", "\u{a0}60", "70\u{3000}"];
